@@ -143,8 +143,9 @@ def workerOut (s : Sys) (w : Nat) : Sys :=
 
 def step (s : Sys) : Label → Res
   | .init b =>
-    if s.rWait.isSome then .disabled
-    else if s.rq.cnt ≥ s.size then .overflow
+    -- `esl_workqueue_Init` may be called by any thread - also by a controller thread while the reader is already asleep
+    -- in `ReaderUpdate` on an empty queue (blocks handed in lazily): its `pthread_cond_signal` then wakes the reader
+    if s.rq.cnt ≥ s.size then .overflow
     else .ok (putReader { s with inited := s.inited ++ [b] } b)
   | .remove =>
     if s.rWait.isSome then .disabled
